@@ -1299,15 +1299,9 @@ fn c15(idx: usize, ctx: &Ctx, rpt: &mut Report) {
     let wit = || json!({"walk": if path_walk { Value::Null } else { json!(clip(&expr)) }, "behaviour": behaviour_json(&behaviour), "constructor": ctor, "window": [window.0, window.1], "tree": describe_tree(&spec)});
     let (missing, extra) = diff(&exp, &got);
     if !missing.is_empty() || !extra.is_empty() {
-        let key = if !path_walk && prefix_len > 0 && missing.is_empty() && window.1.map_or(false, |m| m < prefix_len) {
-            Some("maximum-depth-smaller-than-prefix-still-yields-the-prefix-directory")
-        }
-        else if !path_walk && prefix_len > 0 && missing.is_empty() && window.0 > 0 && window.0 < prefix_len && extra.iter().all(|_| true) && false {
-            None
-        }
-        else {
-            None
-        };
+        // (The finding once listed here — a maximum smaller than the prefix still yields the prefix
+        // directory — was repaired by 0234b3a; nothing is attributed any more.)
+        let key: Option<&str> = None;
         rpt.disagreement(
             &ctx.known,
             if !missing.is_empty() { "depth-or-link-behaviour-loses-entries-inside-the-window" } else { "depth-or-link-behaviour-yields-entries-outside-the-window-or-beneath-links" },
